@@ -296,6 +296,8 @@ def run(shard, rec, rng):
         C2.concurrent_shared_parser(C2._world(), rec, rng, 3, prefix="C01")
     if shard["index"] % 4 == 1:
         limited_memory_schedules(FP, rec, rng)
+    if shard["index"] % 4 == 2:
+        long_parts_in_many_pieces(FP, M, rec, rng)
     for parts, bnd, nl_name, pre, epi, pad in corpus(rng, cfg, shard["index"], shard["of"]):
         built = G.build(parts, bnd, G.NLS[nl_name], pre, epi, pad=pad)
         if pad:
@@ -355,6 +357,73 @@ def limited_memory_schedules(FP, rec, rng):
                         if not want_ok and got != ("EXC", "RequestEntityTooLarge"):
                             rec.violation("C01/outcome-depends-on-piece-size-under-a-memory-limit", f"a {fsize} byte field under max_form_memory_size={L}, pieces of {k} bytes ({how}): {str(got)[:160]}; expected a refusal", case, monitor="boundary-recorder")
                             return
+
+
+def long_parts_in_many_pieces(FP, M, rec, rng):
+    """Sizes the small corpus does not have: a text field that arrives in far more than five hundred pieces (one byte per
+    read), and file parts of a hundred kilobytes decoded in one piece, in pieces above and below 64 KiB, and through the
+    parser with buffer sizes on both sides of its default - same fields, same files, whatever the pieces."""
+    bnd = b"bnd"
+
+    def body_of(parts):
+        out = b""
+        for name, fn, data in parts:
+            out += b"--" + bnd + b"\r\nContent-Disposition: form-data; name=\"" + name + b"\"" + (b"; filename=\"" + fn + b"\"" if fn else b"") + b"\r\n\r\n" + data + b"\r\n"
+        return out + b"--" + bnd + b"--\r\n"
+
+    def want_of(parts):
+        return ([["field", n_.decode(), None, d_] for n_, f_, d_ in parts if f_ is None], [["file", n_.decode(), f_.decode(), d_] for n_, f_, d_ in parts if f_ is not None])
+
+    def parse(body, buffer_size=None, short=None):
+        try:
+            parser = FP.MultiPartParser(**({} if buffer_size is None else {"buffer_size": buffer_size}))
+            form, files = parser.parse(ShortReader(body, short) if short else io.BytesIO(body), bnd, len(body))
+            return ([["field", a, None, v.encode("utf-8", "surrogateescape")] for a, v in form.items(multi=True)], [["file", a, f.filename, f.stream.read()] for a, f in files.items(multi=True)])
+        except Exception as e:  # noqa: BLE001
+            return ("EXC", type(e).__name__, str(e)[:80])
+
+    # ---- a long text field, tiny pieces
+    n_field = rng.choice([700, 1500, 3078])
+    parts = [(b"t", None, bytes(rng.choice(b"abcdefghij klm") for _ in range(n_field))), (b"u", None, b"tail"), (b"up", b"f.bin", b"F" * 900)]
+    body, want = body_of(parts), want_of(parts)
+    for how, kw in [("buffer_size", {"buffer_size": k}) for k in (1, 2, 3, 5, 7, 64)] + [("short_reads", {"short": k}) for k in (1, 2, 3)]:
+        rec.case()
+        rec.nontrivial(("long-field", n_field, how, repr(kw)))
+        rec.observe("long_fields_in_tiny_pieces")
+        got = parse(body, **kw)
+        if got != want:
+            case = {"mode": "long-field-tiny-pieces", "field_size": n_field, **{k: v for k, v in kw.items()}}
+            rec.violation("C01/parser-buffer-size:" + ("payload-differs" if not (isinstance(got, tuple) and got[0] == "EXC") else "raises-" + got[1]),
+                          f"a {n_field} byte text field, {how} {kw}: got field of {len(got[0][0][3]) if got and got[0] and not isinstance(got[0], str) else got!r} bytes", case, monitor="boundary-recorder")
+            return
+    # ---- two large files
+    sizes = (rng.choice([100_000, 130_803, 70_000]), 100_000)
+    parts = [(b"a", b"a.bin", bytes([65 + i % 7 for i in range(sizes[0])])), (b"t", None, b"between"), (b"b", b"b.bin", bytes([97 + i % 5 for i in range(sizes[1])]))]
+    body, want = body_of(parts), want_of(parts)
+    hdr2 = body.index(b"name=\"b\"")
+    for pieces in ("one", 150_000, 65_536, 8192, ("cut", sizes[0] // 2), ("cut", hdr2)):
+        rec.case()
+        rec.nontrivial(("large-files-decoder", sizes, repr(pieces)))
+        rec.observe("large_file_bodies_decoded")
+        cuts = [] if pieces == "one" else ([pieces[1]] if isinstance(pieces, tuple) else list(range(pieces, len(body), pieces)))
+        try:
+            got_ev = decode(M, body, bnd, cuts)
+        except Exception as e:  # noqa: BLE001
+            got_ev = ("EXC", type(e).__name__, str(e)[:80])
+        ok = isinstance(got_ev, list) and [(e_[0], e_[1], e_[4]) for e_ in got_ev] == [("file" if f_ else "field", n_.decode(), d_) for n_, f_, d_ in parts]
+        if not ok:
+            case = {"mode": "large-files-decoder", "file_sizes": list(sizes), "pieces": repr(pieces)}
+            rec.violation("C01/decoder:large-parts-depend-on-the-pieces", f"two files of {sizes} bytes, pieces {pieces!r}: {str(got_ev)[:160]}", case, monitor="boundary-recorder")
+            return
+    for bs in (1000, 4096, 65_536, 100_000, 150_000, len(body) + 1, None):
+        rec.case()
+        rec.nontrivial(("large-files-parser", sizes, bs))
+        rec.observe("large_file_bodies_parsed")
+        got = parse(body, buffer_size=bs)
+        if got != want:
+            case = {"mode": "large-files-parser", "file_sizes": list(sizes), "buffer_size": bs}
+            rec.violation("C01/parser-buffer-size:" + ("payload-differs" if not (isinstance(got, tuple) and got[0] == "EXC") else "raises-" + got[1]), f"two files of {sizes} bytes, buffer_size={bs}: {str(got)[:160]}", case, monitor="boundary-recorder")
+            return
 
 
 def _exp_high(expected):
